@@ -218,6 +218,16 @@ class Call:
         return '<call %s @bb%d %s>' % (self.target, self.bb, self.loc())
 
 
+def promoted_aggs(F, text):
+    """for a constant operand that names a promoted body, the aggregates built there"""
+    out = []
+    if '::promoted[' in text and text in F.bodies_raw:
+        pb = F.body(text)
+        for _bb, s in pb.aggregates():
+            out.append((s[2][2], s[2][4], s[2][5]))
+    return out
+
+
 def op_place(op):
     if op and op[0] in ('c', 'm'):
         return op[1]
@@ -403,13 +413,21 @@ class Body:
         if op is None:
             return out
         if op[0] == 'k':
-            out.add(('const', op[2]))
+            self._const_root(op, out)
             return out
         if op[0] not in ('c', 'm'):
             out.add(('other', str(op)))
             return out
         self._roots_local(op[1][0], seen, out, through_calls, depth)
         return out
+
+    def _const_root(self, op, out):
+        pa = promoted_aggs(self.F, op[2])
+        if pa:
+            for (path, variant, _ops) in pa:
+                out.add(('agg', 'adt', path, variant))
+        else:
+            out.add(('const', op[2]))
 
     PASS = ('clone', 'deref', 'deref_mut', 'borrow', 'borrow_mut', 'as_ref', 'as_mut', 'into',
             'from', 'to_owned', 'as_slice', 'as_mut_slice', 'unwrap', 'expect', 'branch',
@@ -437,7 +455,7 @@ class Body:
                 if passthru and s[2]:
                     for a in s[2][:1]:
                         if a[0] == 'k':
-                            out.add(('const', a[2]))
+                            self._const_root(a, out)
                         elif a[0] in ('c', 'm'):
                             self._roots_local(a[1][0], seen, out, through_calls, depth + 1)
                 else:
@@ -464,7 +482,7 @@ class Body:
 
     def _op_roots(self, op, seen, out, through_calls, depth):
         if op[0] == 'k':
-            out.add(('const', op[2]))
+            self._const_root(op, out)
         elif op[0] in ('c', 'm'):
             self._roots_local(op[1][0], seen, out, through_calls, depth + 1)
 
@@ -1084,3 +1102,100 @@ def pat_disjoint(a, b):
     return False
 
 
+
+
+# --------------------------------------------------------------------------------------------
+# value origins (stops at calls; records casts / arithmetic / payload projections)
+
+
+def origins(body, op, passthru=(), _seen=None, _depth=0):
+    """Where does the value of an operand come from? Returns a set of labels:
+       ('const', text)            ('param', name, type)       ('payload', 'Variant', base type)
+       ('call', target)           ('bin', op)                 ('un', op)
+       ('cast', kind, from->to)   ('agg', path, variant)      ('other', what)
+    Copies, moves, references and dereferences are followed; calls are followed through their
+    first argument only when their last path segment is in `passthru`."""
+    out = set()
+    if op is None:
+        return out
+    if op[0] == 'k':
+        _const_origin(body, op, out)
+        return out
+    if op[0] not in ('c', 'm'):
+        out.add(('other', 'operand'))
+        return out
+    _origins_place(body, op[1], passthru, _seen if _seen is not None else set(), out, _depth)
+    return out
+
+
+def _const_origin(body, op, out):
+    pa = promoted_aggs(body.F, op[2])
+    if pa:
+        for (path, variant, _ops) in pa:
+            out.add(('agg', path, variant))
+    else:
+        out.add(('const', op[2]))
+
+
+def _origins_place(body, place, passthru, seen, out, depth):
+    L = place[0]
+    projs = place[1:]
+    lty = body.locals[L] if L < len(body.locals) else ''
+    for p in projs:
+        if isinstance(p, str) and p.startswith('v'):
+            vname = p.split(':', 1)[1] if ':' in p else p
+            if vname not in ('Some', 'Ok', 'Continue'):
+                out.add(('payload', vname, lty))
+                return
+    key = (L, tuple(str(p) for p in projs if isinstance(p, str) and p.startswith('f')))
+    if key in seen or depth > 80:
+        return
+    seen.add(key)
+    if 1 <= L <= body.argc:
+        out.add(('param', body.varnames.get(L, '_%d' % L), lty))
+    ds = body.defs().get(L, [])
+    if not ds and not (1 <= L <= body.argc):
+        out.add(('other', 'undef _%d' % L))
+    for (bb, j, kind, s) in ds:
+        if kind == 'call':
+            c = s[1]
+            tgt = c.get('r') or c.get('d') or '<indirect>'
+            last = tgt.rsplit('::', 1)[-1]
+            if last in passthru and s[2]:
+                a = s[2][0]
+                if a[0] == 'k':
+                    _const_origin(body, a, out)
+                elif a[0] in ('c', 'm'):
+                    _origins_place(body, a[1], passthru, seen, out, depth + 1)
+            else:
+                out.add(('call', tgt, c.get('tr', ''), (c.get('g') or [''])[0]))
+            continue
+        dst = s[1]
+        rv = s[2]
+        k = rv[0]
+        if k == 'use':
+            o = rv[1]
+            if o[0] == 'k':
+                _const_origin(body, o, out)
+            elif o[0] in ('c', 'm'):
+                _origins_place(body, o[1], passthru, seen, out, depth + 1)
+        elif k in ('ref', 'rawptr'):
+            _origins_place(body, rv[-1], passthru, seen, out, depth + 1)
+        elif k == 'cast':
+            o = rv[2]
+            fty = ''
+            if o[0] in ('c', 'm'):
+                fty = body.locals[o[1][0]] if len(o[1]) == 1 else '?'
+            elif o[0] == 'k':
+                fty = o[3]
+            out.add(('cast', rv[1], '%s->%s' % (fty, rv[3])))
+        elif k == 'bin':
+            out.add(('bin', rv[1]))
+        elif k == 'un':
+            out.add(('un', rv[1]))
+        elif k == 'agg':
+            out.add(('agg', rv[2], rv[4]))
+        elif k == 'discr':
+            out.add(('other', 'discriminant'))
+        else:
+            out.add(('other', k))
